@@ -33,9 +33,17 @@ type c08Step struct {
 	Target   uint64   `json:"target,omitempty"`   // replenish
 	Indices  []uint64 `json:"indices,omitempty"`  // free
 	Batch    []string `json:"batch,omitempty"`    // append
-	Offset   uint64   `json:"offset,omitempty"`   // roots
-	Length   uint64   `json:"length,omitempty"`
+	Offset   uint64   `json:"offset,omitempty"`   // roots; select: 0 current contract, k>0 the k-th latest renewed-away one
+	Length   uint64   `json:"length,omitempty"`   // roots; mine: blocks; form: duration
+	Fresh    bool     `json:"fresh,omitempty"`    // mine: fetch a new price table afterwards
 }
+
+// Pseudo-steps (no RPC under judgement): "mine" advances the chain, "form"
+// forms a contract of the given duration, "select" points the following steps
+// at the current contract or at one that has been renewed away from.
+// Bad == "not-revisable" marks a request with correct signatures against a
+// contract consensus would no longer accept a revision of (proof window open,
+// expired, or renewed): the host must refuse and change nothing.
 
 type c08Seq struct {
 	Worker uint64    `json:"worker"`
@@ -54,9 +62,13 @@ var c08Bad = map[string][]string{
 		"prices-expired", "prices-foreign", "prices-edited", "prices-unsigned",
 		"range-zero-length", "range-offset-at-end", "range-beyond-end", "range-overflow", "range-too-long", "unknown-contract"},
 	"fund": {"sig-random", "sig-wrongkey", "sig-other-number", "sig-other-amount", "sig-stale-base", "sig-replay", "replay-request",
-		"zero-contract-id", "empty-deposits", "zero-amount", "zero-account", "amount-exceeds-payout", "unknown-contract"},
+		"zero-contract-id", "empty-deposits", "zero-amount", "zero-account", "amount-exceeds-payout", "unknown-contract",
+		// totals that are not representable or just above what the renter has left;
+		// the renter signs the revision that wrap-around arithmetic produces
+		"overflow-mid", "overflow-last", "overflow-halves", "overflow-single-max", "sum-exceeds-payout", "sum-exceeds-payout-split"},
 	"replenish-accounts": {"chal-random", "chal-wrongkey", "chal-stale", "chal-future", "chal-other-target", "chal-other-accounts", "replay-request",
 		"target-zero", "empty-accounts", "zero-account", "unknown-contract",
+		"overflow-target", "overflow-target-max", "target-exceeds-payout", "targets-exceed-payout-split",
 		"sig-random", "sig-wrongkey", "sig-other-number", "sig-other-payout", "sig-stale-base", "sig-replay"},
 	"renew": {"chal-random", "chal-stale", "prices-expired", "prices-foreign", "prices-edited", "proof-height-not-higher", "allowance-zero", "minerfee-zero", "basis-zero",
 		"renewal-sig-random", "contract-sig-random", "sigs-swapped"},
@@ -92,6 +104,11 @@ type c08 struct {
 	foreign   types.PrivateKey
 	unknownID types.FileContractID
 	prevIDs   []types.FileContractID // contracts renewed away from
+	prev      []rhp.ContractRevision // ... with their last revision
+	active    *rhp.ContractRevision  // the current contract while an old one is selected
+	fresh     []proto4.Account       // accounts allocated for the running overflow step
+	nfresh    int
+	baseAccts int
 }
 
 func (c *c08) report(sig, what string, ev *rhplab.Event, detail map[string]any) {
@@ -120,6 +137,7 @@ func newC08(r *mon.Run, worker uint64) (*c08, error) {
 		c.accts = append(c.accts, proto4.Account(k.PublicKey()))
 	}
 	e.accounts, e.pools = c.accts, c.accts
+	c.baseAccts = len(c.accts)
 	for i := 0; i < 10; i++ {
 		s := e.lab.StoreDirect(i)
 		c.stored = append(c.stored, s)
@@ -132,8 +150,11 @@ func newC08(r *mon.Run, worker uint64) (*c08, error) {
 	return c, nil
 }
 
-func (c *c08) newContract() error {
-	if err := c.formContract(types.Siacoins(500), types.Siacoins(200), 400); err != nil {
+func (c *c08) newContract() error { return c.newContractFor(400) }
+
+func (c *c08) newContractFor(duration uint64) error {
+	c.active = nil
+	if err := c.formContract(types.Siacoins(500), types.Siacoins(200), duration); err != nil {
 		return err
 	}
 	c.aud.cs = c.cs
@@ -253,6 +274,25 @@ func (c *c08) badChallenge(bad string, expected uint64, hash func(types.FileCont
 		return c.lab.RenterKey.SignHash(hash(id, expected-1)), true
 	}
 	return types.Signature{}, false
+}
+
+// freshAccounts allocates n never-used accounts and tracks their balances (as
+// accounts and as pools) in every later snapshot.
+func (c *c08) freshAccounts(n int) []proto4.Account {
+	var out []proto4.Account
+	for i := 0; i < n; i++ {
+		k := rhplab.KeyFromSeed(uint64(c.r.Seed)*1_000_000+c.worker*10_000+uint64(c.nfresh), 0xF5)
+		c.nfresh++
+		out = append(out, proto4.Account(k.PublicKey()))
+	}
+	// keep the tracked set bounded: the four base accounts plus the latest fresh ones
+	keep := c.accounts
+	if len(keep) > c.baseAccts+30 {
+		keep = append(slices.Clone(keep[:c.baseAccts]), keep[len(keep)-27:]...)
+	}
+	c.accounts = append(slices.Clone(keep), out...)
+	c.pools = c.accounts
+	return out
 }
 
 func (c *c08) accountsOf(st c08Step) []proto4.Account {
@@ -423,6 +463,29 @@ func (c *c08) do(st c08Step) (res c08Result) {
 		case "amount-exceeds-payout":
 			deps[0].Amount = contract.Revision.RenterOutput.Value.Add(types.NewCurrency64(1))
 		}
+		payout := contract.Revision.RenterOutput.Value
+		one, half := types.NewCurrency64(1), types.NewCurrency(0, 1<<63)
+		mk := func(amounts ...types.Currency) {
+			deps = nil
+			for i, a := range amounts {
+				deps = append(deps, proto4.AccountDeposit{Account: c.fresh[i], Amount: a})
+			}
+		}
+		switch bad {
+		case "overflow-mid":
+			mk(types.MaxCurrency, one, one)
+		case "overflow-last":
+			mk(one, types.MaxCurrency)
+		case "overflow-halves":
+			mk(half, half.Add(types.NewCurrency64(5)))
+		case "overflow-single-max":
+			mk(types.MaxCurrency)
+		case "sum-exceeds-payout":
+			mk(payout, one)
+		case "sum-exceeds-payout-split":
+			h := payout.Div64(2).Add(one)
+			mk(h, h)
+		}
 		call := rhplab.FundCall{Contract: contract, Deposits: deps}
 		r2 := c.round2(bad)
 		var sentFund proto4.RPCFundAccountsRequest
@@ -434,6 +497,9 @@ func (c *c08) do(st c08Step) (res c08Result) {
 				req.ContractID = types.FileContractID{}
 			case bad == "amount-exceeds-payout":
 				req.RenterSignature = c.randSig() // the renter cannot even build the revision
+			case req.RenterSignature == (types.Signature{}):
+				// core refuses to build the revision: sign what wrap-around arithmetic gives
+				req.RenterSignature = c.lab.RenterKey.SignHash(c.cs.ContractSigHash(honest))
 			case bad == "replay-request" && c.oldFund != nil:
 				*req = *c.oldFund
 			case bad == "replay-request":
@@ -462,6 +528,24 @@ func (c *c08) do(st c08Step) (res c08Result) {
 				if b.Cmp(call.Target) >= 0 {
 					call.Target = b.Add(types.NewCurrency64(st.Target))
 				}
+			}
+		}
+		payout := contract.Revision.RenterOutput.Value
+		switch bad {
+		case "overflow-target":
+			// two empty accounts, target 2^127+1: the deposits sum to 2^128+2, i.e. 2 after wrap-around
+			call.Accounts, call.Target = c.fresh[:2], types.NewCurrency(1, 1<<63)
+		case "overflow-target-max":
+			call.Accounts, call.Target = c.fresh[:3], types.MaxCurrency
+		case "target-exceeds-payout":
+			call.Accounts, call.Target = c.fresh[:1], payout.Add(types.NewCurrency64(1))
+		case "targets-exceed-payout-split":
+			call.Accounts, call.Target = c.fresh[:2], payout.Div64(2).Add(types.NewCurrency64(1))
+		}
+		if len(bad) > 6 && (bad[:6] == "overfl" || bad[:6] == "target") && bad != "target-zero" && call.Round2 == nil {
+			// sign whatever wrap-around arithmetic yields, even where core refuses
+			call.Round2 = func(rev types.V2FileContract, h types.Hash256) (types.Signature, bool) {
+				return c.lab.RenterKey.SignHash(h), true
 			}
 		}
 		switch bad {
@@ -562,12 +646,66 @@ func (c *c08) do(st c08Step) (res c08Result) {
 }
 
 // step executes one step and judges it.
+// needsFresh reports whether a corruption works on never-used accounts.
+func needsFresh(bad string) bool {
+	switch bad {
+	case "overflow-mid", "overflow-last", "overflow-halves", "overflow-single-max", "sum-exceeds-payout", "sum-exceeds-payout-split",
+		"overflow-target", "overflow-target-max", "target-exceeds-payout", "targets-exceed-payout-split":
+		return true
+	}
+	return false
+}
+
+// pseudo executes the steps that only move the scenario along.
+func (c *c08) pseudo(st c08Step) (bool, error) {
+	switch st.RPC {
+	case "mine":
+		if err := c.lab.Mine(types.VoidAddress, int(st.Length)); err != nil {
+			return true, inconclusive("mine: %v", err)
+		}
+		c.cs = c.lab.CM.TipState()
+		c.aud.cs = c.cs
+		if st.Fresh {
+			p, err := c.lab.HostPrices(c.cl)
+			if err != nil {
+				return true, inconclusive("RPCSettings: %v", err)
+			}
+			c.prices = p
+		}
+		c.r.Count("blocks_mined_in_scenarios", int(st.Length))
+		return true, nil
+	case "form":
+		return true, c.newContractFor(st.Length)
+	case "select":
+		if c.active != nil {
+			c.contract, c.active = *c.active, nil
+		}
+		if k := int(st.Offset); k > 0 {
+			if k > len(c.prev) {
+				return true, inconclusive("select: no renewed-away contract %d", k)
+			}
+			cur := c.contract
+			c.active = &cur
+			c.contract = c.prev[len(c.prev)-k]
+		}
+		return true, nil
+	}
+	return false, nil
+}
+
 func (c *c08) step(st c08Step) error {
 	c.steps = append(c.steps, st)
 	c.cur = &c.steps[len(c.steps)-1]
+	if done, err := c.pseudo(st); done {
+		return err
+	}
 	if err := c.quiesce(); err != nil {
 		return err
 	}
+	if needsFresh(st.Bad) {
+		c.fresh = c.freshAccounts(3)
+	}
+	panics0 := c.lab.HostPanics()
 	pre, err := c.snapshot()
 	if err != nil {
 		return inconclusive("pre-snapshot: %v", err)
@@ -602,6 +740,27 @@ func (c *c08) step(st c08Step) error {
 		if res.success {
 			c.report("bad-request-succeeded:"+label, "a request built to be invalid completed successfully", nil, map[string]any{"pre": pre, "post": post})
 		}
+		if n := c.lab.HostPanics() - panics0; n > 0 {
+			// tolerated as a way of saying no, provided nothing changed (judged below)
+			c.r.Count("handler_panics_on_bad_requests", n)
+			c.r.SetAdd("panicking_bad_requests", label)
+		}
+		if st.Bad == "not-revisable" {
+			c.r.Count("not_revisable_requests", 1)
+			c.r.SetAdd("not_revisable_heights", fmt.Sprintf("%s@%+d", st.RPC, int64(c.lab.CM.Tip().Height)-int64(pre.State.Revision.ProofHeight)))
+		}
+		for _, ev := range commits {
+			if ev.Err == "" && ev.Kind != rhplab.EvRenewContract && ev.Kind != rhplab.EvAddContract {
+				// it did commit: the consensus oracle is evaluated at this very tip
+				if err := acceptableToConsensus(c.lab, ev.ContractID, ev.Revision); err != nil {
+					var inc errInconclusive
+					if !errors.As(err, &inc) {
+						c.report("consensus-rejects-latest-revision:"+st.RPC, err.Error(), &ev, map[string]any{"tip": c.lab.CM.Tip().Height, "proof_height": ev.Revision.ProofHeight})
+					}
+				}
+				break
+			}
+		}
 		if len(commits) > 0 || writes > 0 {
 			c.report("bad-request-persisted:"+label, fmt.Sprintf("a request built to be invalid caused %d persisting calls and %d balance/sector writes", len(commits), writes), nil, nil)
 		}
@@ -627,6 +786,9 @@ func (c *c08) step(st c08Step) error {
 		}
 	} else {
 		c.r.Count("good_requests_"+st.RPC, 1)
+		if n := c.lab.HostPanics() - panics0; n > 0 {
+			c.r.Count("handler_panics_on_good_requests", n)
+		}
 		if !res.success {
 			c.r.Count("unexpected_failures", 1)
 			c.r.Inconclusive(fmt.Sprintf("well-formed %s failed: %v (step %+v)", st.RPC, res.err, st))
@@ -655,6 +817,7 @@ func (c *c08) step(st c08Step) error {
 				c.report("renewal-confirmed-differs:"+st.RPC, "the confirmed renewed contract differs from the one handed to the Contractor", &last, nil)
 			}
 			c.prevIDs = append(c.prevIDs, c.contract.ID)
+			c.prev = append(c.prev, rhp.ContractRevision{ID: c.contract.ID, Revision: pre.State.Revision})
 			c.contract = rhp.ContractRevision{ID: newID, Revision: last.Revision}
 			c.cs = c.lab.CM.TipState()
 			c.aud.cs = c.cs
@@ -673,6 +836,9 @@ func (c *c08) step(st c08Step) error {
 				c.report("consensus-rejects-latest-revision:"+st.RPC, err.Error(), &last, map[string]any{"revision": post.State.Revision})
 			} else {
 				c.r.Count("revision_txns_validated", 1)
+				if d := int64(post.State.Revision.ProofHeight) - int64(c.lab.CM.Tip().Height); d <= 2 {
+					c.r.Count("revision_txns_validated_within_2_of_proof_height", 1)
+				}
 			}
 			c.oldRevs = append(c.oldRevs, pre.State.Revision)
 			c.model = slices.Clone(post.State.Roots)
@@ -802,6 +968,135 @@ func (c *c08) runSequential(nsteps int, table bool) error {
 	return nil
 }
 
+// revisingKinds issues one request of every revising RPC kind, well-formed
+// and correctly signed; bad marks all of them as requests the host must refuse.
+func (c *c08) revisingKinds(bad string, withRenewals bool) error {
+	id := c.contract.ID
+	kinds := []string{"fund", "replenish-accounts", "replenish-pools", "append", "free", "roots"}
+	if withRenewals {
+		kinds = append(kinds, "renew", "refresh-full", "refresh-partial")
+	}
+	for _, rpc := range kinds {
+		var st c08Step
+		switch rpc {
+		case "renew", "refresh-full", "refresh-partial":
+			st = c08Step{RPC: rpc}
+		case "replenish-accounts", "replenish-pools":
+			// always above the balances so that a deposit is due
+			st = c08Step{RPC: rpc, Accounts: []int{c.rng.IntN(4)}, Target: 1<<41 + uint64(len(c.steps))<<20}
+		default:
+			st = c.genGood(c.rng, rpc)
+		}
+		st.Bad = bad
+		if err := c.step(st); err != nil {
+			return err
+		}
+		if c.contract.ID != id {
+			return errScenarioOver // the contract had to be replaced: findings are reported, stop here
+		}
+	}
+	return nil
+}
+
+var errScenarioOver = errors.New("scenario ended early")
+
+func (c *c08) mineTo(height uint64, fresh bool) error {
+	tip := c.lab.CM.Tip().Height
+	if height <= tip {
+		return nil
+	}
+	return c.step(c08Step{RPC: "mine", Length: height - tip, Fresh: fresh})
+}
+
+// runLifecycle walks one contract through its whole life: revisable until the
+// block before its proof height, never again from the proof height on, with
+// or without having been renewed / refreshed in between.
+//
+// Consensus accepts a revision only while the height of the block that would
+// contain it is <= ProofHeight, i.e. while tip < ProofHeight.
+func (c *c08) runLifecycle(variant string) error {
+	err := c.lifecycle(variant)
+	if errors.Is(err, errScenarioOver) {
+		return nil
+	}
+	return err
+}
+
+func (c *c08) lifecycle(variant string) error {
+	if err := c.step(c08Step{RPC: "form", Length: 26}); err != nil {
+		return err
+	}
+	for _, st := range []c08Step{{RPC: "append", Batch: []string{"new", "new", "new", "new"}}, {RPC: "fund", Accounts: []int{0, 1}, Amounts: []uint64{5000}}} {
+		if err := c.step(st); err != nil {
+			return err
+		}
+	}
+	ph := c.contract.Revision.ProofHeight
+	exp := c.contract.Revision.ExpirationHeight
+	oldSelected := false
+	switch variant {
+	case "renew", "refresh-full", "refresh-partial":
+		if err := c.step(c08Step{RPC: variant}); err != nil {
+			return err
+		}
+		if len(c.prev) == 0 {
+			return inconclusive("lifecycle: %s did not commit", variant)
+		}
+		// the old id, right after the renewal and long before its proof height
+		if err := c.step(c08Step{RPC: "select", Offset: 1}); err != nil {
+			return err
+		}
+		oldSelected = true
+		if err := c.revisingKinds("not-revisable", true); err != nil {
+			return err
+		}
+	}
+	type stop struct {
+		height    uint64
+		revisable bool
+		fresh     bool
+	}
+	stops := []stop{{ph - 2, true, true}, {ph - 1, true, true}, {ph, false, true}, {ph + 1, false, true}, {ph + 70, false, false}, {exp - 1, false, false}, {exp, false, false}, {exp + 1, false, false}, {exp + 3, false, false}}
+	for _, sp := range stops {
+		if err := c.mineTo(sp.height, sp.fresh); err != nil {
+			return err
+		}
+		if oldSelected {
+			// the renewed-away contract is refused at every height
+			if err := c.revisingKinds("not-revisable", sp.height <= ph+1); err != nil {
+				return err
+			}
+			// ... while its successor lives by its own proof height
+			if err := c.step(c08Step{RPC: "select"}); err != nil {
+				return err
+			}
+			nph := c.contract.Revision.ProofHeight
+			bad := ""
+			if c.lab.CM.Tip().Height >= nph {
+				bad = "not-revisable"
+			}
+			if sp.height <= ph+1 || bad == "" {
+				if err := c.revisingKinds(bad, false); err != nil {
+					return err
+				}
+			}
+			if err := c.step(c08Step{RPC: "select", Offset: 1}); err != nil {
+				return err
+			}
+			continue
+		}
+		bad := ""
+		if !sp.revisable {
+			bad = "not-revisable"
+		}
+		if err := c.revisingKinds(bad, !sp.revisable && sp.height <= ph+1); err != nil {
+			return err
+		}
+	}
+	c.r.Count("lifecycles_completed", 1)
+	return c.step(c08Step{RPC: "select"})
+}
+
 func runC08(r *mon.Run, replay string) {
 	r.Rule("sequences of fund / replenish accounts / replenish pools / append / free / roots / latest-revision / renew / refresh (full, partial) RPCs through the raw renter, each well-formed or with exactly one field corrupted or replayed (table RPC x corruption: challenge random/foreign key/stale/future/other contract/replayed; price table expired/foreign/edited/unsigned; indices, ranges, deposits, targets out of range; round-2 signature random/foreign key/other number/other payout/stale base/replayed; whole earlier request replayed). Every call on the recording Contractor is checked pairwise against the predecessor revision and against core's ReviseFor*/RenewContract/Refresh* applied to the tapped request; corrupted requests must cause zero persisting calls, zero balance/sector writes and leave the snapshot byte-equal; after every commit {on-chain element, latest revision} must pass consensus.ValidateV2Transaction. Concurrent part: 2-8 clients on one contract. A case is non-trivial when the request was corrupted (distinct by RPC x corruption) or when two clients raced (distinct by interleaving signature)")
 	r.Assume("EphemeralContractor (reference) behind the recording proxy; core's ReviseFor*, NewContract, RenewContract, Refresh*, ContractSigHash and consensus validation are the trusted base")
@@ -815,6 +1110,9 @@ func runC08(r *mon.Run, replay string) {
 	r.Floor("revision_txns_validated", 100)
 	r.Floor("renewals_confirmed", 3)
 	r.Floor("concurrent_commits", 20)
+	r.Floor("not_revisable_requests", 60)
+	r.Floor("revision_txns_validated_within_2_of_proof_height", 10)
+	r.Floor("lifecycles_completed", 3)
 	workers := r.Pick(8, 16)
 	steps := r.Pick(300, 1500)
 	var wg sync.WaitGroup
@@ -832,6 +1130,22 @@ func runC08(r *mon.Run, replay string) {
 				return c.runSequential(steps, w < r.Pick(2, 4))
 			})
 		}(w)
+	}
+	variants := []string{"plain", "renew", "refresh-partial", "refresh-full"}
+	for i := 0; i < r.Pick(4, 12); i++ {
+		wg.Add(1)
+		go func(i int) {
+			defer wg.Done()
+			guardRun(r, fmt.Sprintf("C08 lifecycle %d", i), func() error {
+				c, err := newC08(r, uint64(300+i))
+				if err != nil {
+					return err
+				}
+				defer c.close()
+				defer func() { r.Count("handler_panics_recovered", c.lab.HostPanics()) }()
+				return c.runLifecycle(variants[i%len(variants)])
+			})
+		}(i)
 	}
 	for _, k := range []int{2, 3, 4, 8} {
 		wg.Add(1)
